@@ -34,9 +34,40 @@ def lim2Expected (op : Lim2) : List Row :=
   -- a subquery's ORDER BY does not order the outer query: the table sinks then sort the rows by value
   if op.level == 2 && (op.mode == "batch_table" || op.mode == "live_table") then sortCanon [] top else top
 
+/-! `lim3 <mode> <variant> <n> <m> <na> <nb>`: an outer LIMIT n over a plan in which another Limit node runs many times:
+    0 `range(0,na) a LOOKUP JOIN (SELECT * FROM range(0,nb) r LIMIT m) b LIMIT n`, 1 the same as a subquery,
+    2 `SELECT a.i, (SELECT r.i FROM range(0,nb) r LIMIT 1)[0] FROM range(0,na) a LIMIT n`, 3 variant 0 with
+    `ORDER BY x DESC, y ASC`. Rows are compared as sorted strings. -/
+structure Lim3 where
+  variant : Nat
+  n : Nat
+  m : Nat
+  na : Nat
+  nb : Nat
+
+def parseLim3 : List String → Option Lim3
+  | ["lim3", _, variant, n, m, na, nb] =>
+    some { variant := variant.toNat!, n := n.toNat!, m := m.toNat!, na := na.toNat!, nb := nb.toNat! }
+  | _ => none
+
+/-- the rows below the outer LIMIT, in the order the plan produces / orders them -/
+def lim3All (op : Lim3) : List Octo.Sql.Row :=
+  let xs := if op.variant == 3 then (List.range op.na).reverse else List.range op.na
+  if op.variant == 2 then xs.map fun (x : Nat) => [Value.int x, Value.int 0]
+  else xs.flatMap fun (x : Nat) => (List.range (min op.m op.nb)).map fun (y : Nat) => [Value.int x, Value.int y]
+
+def insertStr (s : String) : List String → List String
+  | [] => [s]
+  | x :: xs => if s < x then s :: x :: xs else x :: insertStr s xs
+def sortStrs (l : List String) : List String := l.foldr insertStr []
+
+def lim3Render (rows : List Octo.Sql.Row) : String :=
+  String.intercalate " | " (s!"rows {rows.length}" :: sortStrs (rows.map renderRow))
+
 def model (toks : List String) : String :=
   match toks with
   | "lim2" :: _ => (match parseLim2 toks with | some op => renderRows (lim2Expected op) | none => "bad-op")
+  | "lim3" :: _ => (match parseLim3 toks with | some op => lim3Render ((lim3All op).take op.n) | none => "bad-op")
   | _ =>
   match parseSel toks with
   | some op => modelSel op
@@ -61,8 +92,25 @@ def judgeLim2 (op : Lim2) (out : List String) : String :=
       else if typed.length != min op.n groups.length then s!"bad wrong-row-count got={typed.length} want={min op.n groups.length}"
       else "bad not-the-first-n-of-the-order"
 
+def judgeLim3 (op : Lim3) (out : List String) : String :=
+  let all := lim3All op
+  match splitRows out with
+  | none => s!"bad no-rows-output {String.intercalate " " out}"
+  | some rendered =>
+    match matchRows all all rendered with
+    | none => "bad row-not-in-the-join-or-repeated"
+    | some typed =>
+      if typed.length != min op.n all.length then s!"bad wrong-row-count got={typed.length} want={min op.n all.length}"
+      else if op.variant == 3 || op.n ≥ all.length then
+        (if lim3Render typed == lim3Render (all.take op.n) then "ok" else "bad not-the-first-n-of-the-order")
+      else "ok ambiguous which-rows-a-limit-without-order-keeps"
+
 def judge (toks : List String) (out : List String) : String :=
   match toks with
+  | "lim3" :: _ =>
+    (match parseLim3 toks with
+     | some op => if out == ["panic"] then "bad go-panic" else judgeLim3 op out
+     | none => "bad unparsable-op")
   | "lim2" :: _ =>
     (match parseLim2 toks with
      | some op => if out == ["panic"] then "bad go-panic" else judgeLim2 op out
